@@ -22,6 +22,7 @@ func Subs(prop string) []Sub { return table[prop] }
 
 func init() {
 	add("C01", Sub{Name: "C01/enum", Mode: "free", QuickS: 150, ThorS: 1500})
+	add("C12", Sub{Name: "C12/sched", Mode: "controlled", QuickS: 100, ThorS: 1200}, Sub{Name: "C12/race", Mode: "race", QuickS: 100, ThorS: 600, Shards: 8})
 	add("C13", Sub{Name: "C13/fault", Mode: "free", QuickS: 100, ThorS: 900}, Sub{Name: "C13/params", Mode: "free", QuickS: 100, ThorS: 600})
 	add("C15", Sub{Name: "C15/fault", Mode: "free", QuickS: 120, ThorS: 900})
 	add("C17", Sub{Name: "C17/fault", Mode: "free", QuickS: 120, ThorS: 900})
@@ -36,7 +37,10 @@ func init() {
 	add("C09", Sub{Name: "C09/enum", Mode: "free", QuickS: 150, ThorS: 1700})
 	add("C10", Sub{Name: "C10/enum", Mode: "free", QuickS: 150, ThorS: 1500})
 	add("C16", Sub{Name: "C16/enum", Mode: "free", QuickS: 150, ThorS: 1200})
-	add("C11", Sub{Name: "C11/sched", Mode: "controlled", QuickS: 100, ThorS: 1500})
+	add("C11", Sub{Name: "C11/sched", Mode: "controlled", QuickS: 100, ThorS: 1500}, Sub{Name: "C11/enum", Mode: "free", QuickS: 120, ThorS: 1200})
+	add("C18", Sub{Name: "C18/enum", Mode: "free", QuickS: 150, ThorS: 1500})
+	add("C19", Sub{Name: "C19/enum", Mode: "free", QuickS: 150, ThorS: 1500})
+	add("C20", Sub{Name: "C20/hist", Mode: "free", QuickS: 150, ThorS: 1500})
 }
 
 // Rule describes, per property, how states are enumerated and what makes one
